@@ -14,11 +14,13 @@ import (
 	"bytes"
 	"context"
 	"crypto/sha256"
+	"crypto/sha512"
 	"encoding/json"
 	"errors"
 	"fmt"
 	"runtime/debug"
 	"sort"
+	"strconv"
 	"strings"
 
 	"github.com/ipfs/go-cid"
@@ -72,7 +74,9 @@ type Scn struct {
 	BigNode []int  `json:"big_node,omitempty"` // then dag-json blocks whose encoding is exactly these sizes
 	// then, per entry, a FORGED block: an advertisement body B (PreviousID = the newest genuine
 	// ad) announced under a CID naming this hash function with the digest SHA2-256(B); and
-	// after all of them, per entry, a genuine sha2-256 ad whose PreviousID is the forged CID
+	// after all of them, per entry, a genuine sha2-256 ad whose PreviousID is the forged CID.
+	// "code:0x<hex>/<len>" names ANY multihash code (registered with the subscriber's
+	// go-multihash or not) with a plausible <len>-byte digest derived from the body
 	Forge   []string `json:"forge,omitempty"`
 	Trusted bool     `json:"trusted,omitempty"` // the destination link system has TrustedStorage = true
 	Pre     []PreJ   `json:"pre,omitempty"`
@@ -139,11 +143,15 @@ func getWorld(sc Scn) *builtWorld {
 	}
 	var forged []cid.Cid
 	for i, name := range sc.Forge {
+		body := w.AdBytes(w.CidOf(sc.Ads), fmt.Sprintf("%s-%d", name, i))
+		if code, dlen, ok := parseCodeName(name); ok {
+			forged = append(forged, w.AddForged(body, cid.DagJSON, code, plausibleDigest(body, dlen)))
+			continue
+		}
 		code, ok := forgeCodes[name]
 		if !ok {
 			panic("forge " + name)
 		}
-		body := w.AdBytes(w.CidOf(sc.Ads), fmt.Sprintf("%s-%d", name, i))
 		d := sha256.Sum256(body)
 		forged = append(forged, w.AddForged(body, cid.DagJSON, code, d[:]))
 	}
@@ -156,6 +164,63 @@ func getWorld(sc Scn) *builtWorld {
 }
 
 // ---------------------------------------------------------------------------
+
+// "code:0x1012/20" -> (0x1012, 20)
+func parseCodeName(name string) (uint64, int, bool) {
+	if !strings.HasPrefix(name, "code:0x") {
+		return 0, 0, false
+	}
+	parts := strings.SplitN(strings.TrimPrefix(name, "code:0x"), "/", 2)
+	if len(parts) != 2 {
+		panic("forge " + name)
+	}
+	code, err1 := strconv.ParseUint(parts[0], 16, 64)
+	dlen, err2 := strconv.Atoi(parts[1])
+	if err1 != nil || err2 != nil {
+		panic("forge " + name)
+	}
+	return code, dlen, true
+}
+
+// what a digest of the body could look like: SHA2-256 (<= 32 bytes) or SHA2-512 of it
+func plausibleDigest(body []byte, n int) []byte {
+	if n <= 32 {
+		d := sha256.Sum256(body)
+		return d[:n]
+	}
+	d := sha512.Sum512(body)
+	return d[:n]
+}
+
+// the property text's "bytes that hash to the CID" presupposes that the hash the CID names
+// can be computed: verifiable = go-multihash (the registry the subscriber's link systems
+// and fetchBlock use) has the function.  Judged by the harness, not by the code under test.
+func verifiable(c cid.Cid) bool {
+	_, err := multihash.GetHasher(c.Prefix().MhType)
+	return err == nil
+}
+
+// some block whose CID is not verifiable is the head or can be reached from it over links
+func reachesUnverifiable(w *syncdrv.World, head int) bool {
+	seen := map[int]bool{}
+	var visit func(r int) bool
+	visit = func(r int) bool {
+		if r == 0 || r == syncdrv.ForeignRank || seen[r] {
+			return false
+		}
+		seen[r] = true
+		if !verifiable(w.CidOf(r)) {
+			return true
+		}
+		for _, e := range w.Blocks[r-1].Edges {
+			if visit(e.To) {
+				return true
+			}
+		}
+		return false
+	}
+	return visit(head)
+}
 
 func hashesTo(body []byte, c cid.Cid) bool {
 	p := c.Prefix()
@@ -357,6 +422,9 @@ func runScn(c *vlib.Ctx, sc Scn, verbose bool) {
 			}
 			if pre, ok := corruptPre[k]; ok && bytes.Equal(pre, v) {
 				content = 3000 + rank // untouched corrupt entry that was there before the run
+			} else if !verifiable(kc) {
+				failOnce(c, "unverifiable-stored", fmt.Sprintf("unverifiable-block-stored:%s:%s", forgeSig(sc), faultSig(sc)),
+					fmt.Sprintf("the destination store holds %d bytes under block %d's CID %s, which names multihash code 0x%x: no implementation of that function is available, so no digest was computed, yet the bytes were committed", len(v), rank, kc, kc.Prefix().MhType), sc)
 			} else if !hashesTo(v, kc) {
 				failOnce(c, "audit", fmt.Sprintf("audit:stored-bytes-do-not-hash-to-key:%s:%s", sc.Hash, faultSig(sc)),
 					fmt.Sprintf("the destination store holds %d bytes under block %d's CID that do not hash to it", len(v), rank), sc)
@@ -397,10 +465,23 @@ func runScn(c *vlib.Ctx, sc Scn, verbose bool) {
 			}
 		}
 		for _, h := range so.hooks {
+			if h != syncdrv.ForeignRank && !verifiable(w.CidOf(h)) {
+				failOnce(c, "unverifiable-hooked", fmt.Sprintf("unverifiable-block-hooked:%s:%s", forgeSig(sc), faultSig(sc)),
+					fmt.Sprintf("block %d, whose CID names multihash code 0x%x (not available: no digest can be computed), was handed to the block hook", h, w.CidOf(h).Prefix().MhType), sc)
+			}
 			v, ok := entries[syncdrv.DSKey(w.CidOf(h)).String()]
 			if !ok || !hashesTo(v, w.CidOf(h)) {
 				failOnce(c, "hook-unsound", fmt.Sprintf("hook:block-not-stored-soundly:%s:%s", sc.Hash, faultSig(sc)),
 					fmt.Sprintf("block %d was handed to the hook but the store does not hold bytes that hash to it", h), sc)
+			}
+		}
+		for j, a := range so.answers {
+			if a.req != syncdrv.ForeignRank && !verifiable(w.CidOf(a.req)) {
+				c.Count("observation:unverifiable-cid-requested")
+				if so.ok {
+					failOnce(c, "unverifiable-accepted", fmt.Sprintf("unverifiable-block-accepted:%s:%s", forgeSig(sc), faultSig(sc)),
+						fmt.Sprintf("request %d asked for block %d, whose CID names multihash code 0x%x (not available), and the sync succeeded although the digest of the answer cannot have been computed", j, a.req, w.CidOf(a.req).Prefix().MhType), sc)
+				}
 			}
 		}
 		switch {
@@ -421,6 +502,10 @@ func runScn(c *vlib.Ctx, sc Scn, verbose bool) {
 						fmt.Sprintf("something was committed under block %d's CID although its fetch failed", req), sc)
 				}
 			}
+		case !so.ok && reachesUnverifiable(w, sy.Head):
+			// the walk may have met a CID whose hash function is not available: it has to
+			// fail there; whether it met one (stop, depth limit) the model decides
+			c.Count("sync:failed-with-unverifiable-cid-in-reach")
 		case !so.ok:
 			failOnce(c, "good-failed", fmt.Sprintf("all-good-but-failed:%s:%s", sc.Hash, faultSig(sc)), "every answer hashed to its CID but the sync failed: "+so.err, sc)
 		}
@@ -467,6 +552,15 @@ func runScn(c *vlib.Ctx, sc Scn, verbose bool) {
 		}
 		return vlib.CoqList(it)
 	}
+	var unver []int
+	for _, b := range w.Blocks {
+		if !verifiable(b.Cid) {
+			unver = append(unver, b.Rank)
+		}
+	}
+	if len(unver) > 0 {
+		c.Count("world:with-unverifiable-cids")
+	}
 	var syncs []string
 	for i, so := range obs {
 		sy := sc.Syncs[i]
@@ -502,10 +596,14 @@ func runScn(c *vlib.Ctx, sc Scn, verbose bool) {
 		syncs = append(syncs, fmt.Sprintf("(FSYNC %s %s %s %s HNominate %d, %s, (%s, %s, %s))", view, stop, lim, vlib.CoqZ(segdl), sy.Head,
 			vlib.CoqList(script), vlib.CoqBool(so.ok), ints(so.hooks), vlib.CoqList(reqs)))
 	}
-	c.Case("fetch", fmt.Sprintf("((%s, %s, %s, %s) : fcase)", vlib.CoqList(blocks), pairs(initial), vlib.CoqList(syncs), pairs(final)), sc)
+	c.Case("fetch", fmt.Sprintf("((%s, %s, %s, %s, %s) : fcase)", vlib.CoqList(blocks), ints(unver), pairs(initial), vlib.CoqList(syncs), pairs(final)), sc)
 	if len(sc.Syncs[0].Faults) > 0 && sc.Ads >= 3 {
 		c.Sample(map[string]interface{}{"input": sc, "ok": obs[0].ok, "error": obs[0].err, "hooks": obs[0].hooks, "store": final})
 	}
+}
+
+func forgeSig(sc Scn) string {
+	return "forge=" + strings.Join(sc.Forge, ",") + fmt.Sprintf(":trusted=%v", sc.Trusted)
 }
 
 func faultSig(sc Scn) string {
@@ -539,6 +637,6 @@ func main() {
 		return
 	}
 	c.Res.Exhaustive = false
-	c.Res.Rule = "advertisement chains of length 1..4 (sha2-256) and 3 (sha2-256 truncated to 16 / 20, sha2-512, blake2b-256, identity), entries chains of length 2: at every request position of the sync, unsegmented and with segment size 1 / 2: 16 (quick) single-bit flips spread over the body, truncation at sampled lengths (every length for the entry chunks), 1 / 3 / 100 appended bytes, the empty body, a 4 MiB body, blocks whose genuine size is exactly 4 MiB - 1 / 4 MiB / 4 MiB + 1 (raw-codec and dag-json) served exactly, with 1 / 4096 appended bytes and cut by one byte, the body of every other block, status 404 / 500 / 204, a 200 answer cut in mid-body (full Content-Length, k bytes, connection closed; k = 0, 1, half, len-1) followed by good answers to any repeated request and by a clean second sync, on dag-json chains and on raw-codec leaf blocks; the same lie patterns with the destination link system's TrustedStorage = true; chains mixing hash functions: a sha2-256 advertisement linking a FORGED CID that names sha2-512/32, sha2-512-256, sha3-256, blake2b-256, blake3, dbl-sha2-256 or a 32-byte identity multihash with the digest SHA2-256(body), within one walk, across syncs of one subscriber, and with the forged CID fetched first; two faults in one sync; pre-stored sound and corrupt entries; sequences of failing and succeeding syncs on one subscriber. non-trivial = a fault that was actually delivered"
+	c.Res.Rule = "advertisement chains of length 1..4 (sha2-256) and 3 (sha2-256 truncated to 16 / 20, sha2-512, blake2b-256, identity), entries chains of length 2: at every request position of the sync, unsegmented and with segment size 1 / 2: 16 (quick) single-bit flips spread over the body, truncation at sampled lengths (every length for the entry chunks), 1 / 3 / 100 appended bytes, the empty body, a 4 MiB body, blocks whose genuine size is exactly 4 MiB - 1 / 4 MiB / 4 MiB + 1 (raw-codec and dag-json) served exactly, with 1 / 4096 appended bytes and cut by one byte, the body of every other block, status 404 / 500 / 204, a 200 answer cut in mid-body (full Content-Length, k bytes, connection closed; k = 0, 1, half, len-1) followed by good answers to any repeated request and by a clean second sync, on dag-json chains and on raw-codec leaf blocks; the same lie patterns with the destination link system's TrustedStorage = true; chains mixing hash functions: a sha2-256 advertisement linking a FORGED CID that names sha2-512/32, sha2-512-256, sha3-256, blake2b-256, blake3, dbl-sha2-256 or a 32-byte identity multihash with the digest SHA2-256(body), within one walk, across syncs of one subscriber, and with the forged CID fetched first; CIDs naming multihash codes the subscriber has no implementation of (0x1012, 0xb401, 0x7777, 0x300001, 0x1100, 0xd4, 0x1053, 0xb3e0 as far as multihash.GetHasher refuses them; digests of 20 / 32 / 64 bytes) and available functions with an over-long digest, linked from a genuine sha2-256 advertisement or asked for directly, trusted and untrusted, segment size off / 1, depth 1 / 2, served as is, flipped, substituted, empty or 404; two faults in one sync; pre-stored sound and corrupt entries; sequences of failing and succeeding syncs on one subscriber. non-trivial = a fault that was actually delivered"
 	gen(c)
 }
